@@ -142,6 +142,11 @@ func Str(v string) X {
 	t := []Tok{pt("'" + strings.ReplaceAll(v, "'", "''") + "'")}
 	return X{Toks: t, Full: t, N: &ast.LiteralValue{Value: v, Type: "string"}, P: PPrimary, Names: []Name{{Role: "string", Name: v}}}
 }
+// StrRaw is a string literal written as raw (quotes included) whose value is v: forms with backslash escapes.
+func StrRaw(raw, v string) X {
+	t := []Tok{pt(raw)}
+	return X{Toks: t, Full: t, N: &ast.LiteralValue{Value: v, Type: "string"}, P: PPrimary, Feat: []string{"lit.string-escape"}, Names: []Name{{Role: "string", Name: v}}}
+}
 func Bool(v string) X {
 	t := []Tok{kw(v)}
 	return X{Toks: t, Full: t, N: &ast.LiteralValue{Value: strings.ToUpper(v), Type: "bool"}, P: PPrimary, Feat: []string{"lit.bool"}}
